@@ -33,6 +33,16 @@ pub fn generate(tier: &str, rng: &mut Rng) -> Vec<Spec> {
         }
         v.push(Spec::new("mean").with("N", n).with("ty", if int { "int" } else { "rat" }).with("xs", join_rats(&xs)));
     }
+    // float instantiations where every operation is exact: integer samples, power-of-two widths; and wide windows
+    for i in 0..(if thorough { 400 } else { 60 }) {
+        let n = [1usize, 2, 4, 8, 16, 32][i % 6]; let len = rng.range(1, 80) as usize;
+        let xs: Vec<Rat> = (0..len).map(|_| Rat::int(rng.range(-1000, 1000))).collect();
+        // during warm-up the divisor is k = 1..N-1 (not a power of two): keep the first N samples equal so that
+        // (k*c)/k is exact; afterwards the divisor is N
+        let c0 = xs[0]; let fx: Vec<Rat> = xs.iter().enumerate().map(|(k, x)| if k < n { c0 } else { *x }).collect();
+        v.push(Spec::new("mean").with("N", n).with("ty", if i % 2 == 0 { "f64" } else { "f32" }).with("xs", join_rats(&fx)));
+        v.push(Spec::new("mean").with("N", [12usize, 16, 32, 64][i % 4]).with("ty", "rat").with("xs", join_rats(&xs)));
+    }
     // long runs (internal re-synchronisation or drift only shows after hundreds of samples)
     for i in 0..(if thorough { 40 } else { 10 }) {
         let n = [1usize, 2, 4, 8, 3, 16][i % 6];
@@ -61,14 +71,33 @@ fn run_int<const N: usize>(xs: &[i64], stats: &mut Stats) -> Outcome {
     Outcome::Case(format!("mk {} true {} {} {} {} {} {}", N, clist(xs, |z| qi(*z)), clist(&ys, |z| qi(*z)), cbool(panic), copt(&g.mean, |z| qi(*z)), clist(&taps, |z| qi(*z)), qi(g.weight)))
 }
 
+fn run_flt<const N: usize>(f32ty: bool, xs: &[Rat], stats: &mut Stats) -> Outcome {
+    use crate::util::f64_exact;
+    let ex = |v: f64| f64_exact(v).unwrap_or(Rat::int(i64::MAX / 16));
+    let mut ys = vec![]; let mut panic = false;
+    let (mean, taps, weight);
+    if f32ty { let mut f: Mean<f32, N> = Mean::default();
+        for x in xs { match catch(|| f.filter(x.to_f64() as f32)) { Ok(y) => ys.push(ex(y as f64)), Err(_) => { panic = true; stats.panics += 1; break } } }
+        let g = f.into_guts(); mean = g.mean.map(|m| ex(m as f64)); taps = g.taps.iter().map(|t| ex(*t as f64)).collect::<Vec<Rat>>(); weight = ex(g.weight as f64);
+    } else { let mut f: Mean<f64, N> = Mean::default();
+        for x in xs { match catch(|| f.filter(x.to_f64())) { Ok(y) => ys.push(ex(y)), Err(_) => { panic = true; stats.panics += 1; break } } }
+        let g = f.into_guts(); mean = g.mean.map(ex); taps = g.taps.iter().map(|t| ex(*t)).collect::<Vec<Rat>>(); weight = ex(g.weight);
+    }
+    Outcome::Case(format!("mk {} false {} {} {} {} {} {}", N, cqlist(xs), cqlist(&ys), cbool(panic), copt(&mean, cq), cqlist(&taps), cq(&weight)))
+}
+
 pub fn exec(s: &Spec, stats: &mut Stats) -> Outcome {
     let n = s.usize("N");
     stats.bump(format!("N:{}", n)); { let l = s.rats("xs").len(); stats.bump(if l >= 256 { "len:>=256".to_string() } else { format!("len:{}", l / 10 * 10) }); }
+    if s.get("ty") == "f64" || s.get("ty") == "f32" {
+        stats.bump(format!("ty:{}", s.get("ty"))); let xs = s.rats("xs"); let f32ty = s.get("ty") == "f32";
+        return dispatch_n!(n, run_flt, (f32ty, &xs, stats); 1 2 4 8 16 32);
+    }
     if s.get("ty") == "int" {
         let xs: Vec<i64> = s.rats("xs").iter().map(|r| r.n as i64).collect();
         dispatch_n!(n, run_int, (&xs, stats); 1 2 3 4 5 6 7 8 16)
     } else {
         let xs = s.rats("xs");
-        dispatch_n!(n, run_rat, (&xs, stats); 1 2 3 4 5 6 7 8 16)
+        dispatch_n!(n, run_rat, (&xs, stats); 1 2 3 4 5 6 7 8 12 16 32 64)
     }
 }
